@@ -214,6 +214,25 @@ def run(res):
     inputs = []    # (kind, source)
     for label, s in HOSTILE:
         inputs.append(("hostile:" + label, s))
+    # the same hostile code on a thread the script starts: a Go-level panic there (frame or operand stack overflow, a
+    # panicking builtin) has no caller to return to - it must still come back as an error of wait() / be contained, and
+    # never end the embedding process
+    for label, s in HOSTILE:
+        if len(s) < 4000:
+            inputs.append(("hostile-spawn:" + label, "t := spawn(func() {\n" + s + "\n})\nt.wait()"))
+            inputs.append(("hostile-go:" + label, "go func() {\n" + s + "\n}()\nfor i := range 200000 { }\n1"))
+    # template strings: every arrangement of braces, empty / blank / comment-only / broken interpolations
+    tfr = ["{", "}", "{}", "{ }", "{x}", "{1+}", "a", "{{", "}}", "{\"b\"}", "{\n}", "\\{", "{/*c*/}", "{x}{}", " ", "{x.y}", "{[}", "{x}-{ }-{x}"]
+    for i in range(120 if tier == "quick" else 3000):
+        body = "".join(rng.choice(tfr) for _ in range(1 + rng.below(5)))
+        inputs.append(("template", "x := 5\n'" + body + "'"))
+    for body in ("{}", "a{}b", "{ }", "{x}-{ }-{x}", "{}{}", "{x}{}", "{/*c*/}", "{#c\n}"):
+        inputs.append(("template", "x := 5\n'" + body + "'"))
+    inputs.append(("thread:deep-recursion", "func f(n) { return f(n+1) }\nt := spawn(f, 0)\nt.wait()"))
+    inputs.append(("thread:deep-recursion-go", "func f(n) { return f(n+1) }\ngo f(0)\nfor i := range 300000 { }\n1"))
+    inputs.append(("thread:big-stack", "t := spawn(func() { return [" + ", ".join(["1"] * 3000) + "] })\nt.wait()"))
+    inputs.append(("thread:nested", "func f(n) { return f(n+1) }\nt := spawn(func() { return spawn(f, 0).wait() })\nt.wait()"))
+    inputs.append(("thread:in-callback", "func f(n) { return f(n+1) }\n[1, 2].each(func(x) { spawn(f, x).wait() })"))
     for label, s in CYCLIC:
         inputs.append(("cyclic:" + label, s))
     for label, s in CYCLIC_PRINT:
